@@ -50,6 +50,11 @@ pub struct Cfg {
     /// when matching credentials are present)
     #[serde(default)]
     pub long_allow_list: bool,
+    /// authenticator-API configurations: the authenticator supports hmac-secret (1 with non-gated secret and evaluation at
+    /// creation, 2 gated only with evaluation at creation, 3 with non-gated secret) and the request carries a PRF input;
+    /// held credentials then hold both secrets. Extension processing comes after consent and must not touch the flags.
+    #[serde(default)]
+    pub hmac: u8,
 }
 
 fn late_credential() -> Passkey {
@@ -85,10 +90,15 @@ fn through_wire<T: Serialize + serde::de::DeserializeOwned>(req: T, options_key:
 const RP: &str = "example.com";
 
 fn contents(matching: bool) -> Vec<Passkey> {
-    let mut v = vec![make_passkey(31, "other.example.org", b"other-rp-cred-0001", Some(b"uh-x"), Some(7), None)];
+    contents_with(matching, false)
+}
+
+fn contents_with(matching: bool, secrets: bool) -> Vec<Passkey> {
+    let hm = |k: u8| secrets.then(|| (vec![k; 32], Some(vec![k ^ 0xFF; 32])));
+    let mut v = vec![make_passkey(31, "other.example.org", b"other-rp-cred-0001", Some(b"uh-x"), Some(7), hm(1))];
     if matching {
-        v.push(make_passkey(32, RP, b"matching-cred-0001", Some(b"uh-1"), Some(5), None));
-        v.push(make_passkey(33, RP, b"matching-cred-0002", Some(b"uh-2"), Some(9), None));
+        v.push(make_passkey(32, RP, b"matching-cred-0001", Some(b"uh-1"), Some(5), hm(2)));
+        v.push(make_passkey(33, RP, b"matching-cred-0002", Some(b"uh-2"), Some(9), hm(3)));
     }
     v
 }
@@ -104,13 +114,15 @@ pub struct Outcome {
 }
 
 pub fn execute(c: &Cfg, matching: bool) -> Result<Outcome, String> {
-    let store = RefStore::with(Disc::Full, contents(matching));
+    let store = RefStore::with(Disc::Full, contents_with(matching, c.hmac != 0));
     let uv = ScriptedUv::new(c.script.clone());
     if c.store_changes_during_prompt {
         let s2 = store.clone();
         uv.on_next_check(move || s2.prepend(late_credential()));
     }
-    let auth = cer::build_authenticator(store.clone(), uv.clone(), &AuthCfg { counter: true, ..Default::default() });
+    let hmac_cfg = [cer::HmacCfg::None, cer::HmacCfg::WithoutUvMc, cer::HmacCfg::UvOnlyMc, cer::HmacCfg::WithoutUv][c.hmac as usize % 4];
+    let auth = cer::build_authenticator(store.clone(), uv.clone(), &AuthCfg { counter: true, hmac: hmac_cfg, ..Default::default() });
+    let prf_in = || passkey_types::ctap2::extensions::AuthenticatorPrfInputs { eval: Some(passkey_types::ctap2::extensions::AuthenticatorPrfValues { first: [0x42; 32], second: None }), eval_by_credential: None };
     #[allow(unused_assignments)]
     let mut store_before: Vec<PkSnap> = store.creds().iter().map(snap).collect();
     let exclude = c.exclude_list.then(|| vec![cer::descriptor(b"matching-cred-0001"), cer::descriptor(b"never-seen")]);
@@ -159,7 +171,7 @@ pub fn execute(c: &Cfg, matching: bool) -> Result<Outcome, String> {
                 user: passkey_types::webauthn::PublicKeyCredentialUserEntity { id: b"user".to_vec().into(), display_name: "d".into(), name: "n".into() },
                 pub_key_cred_params: cer::params(&[-7]),
                 exclude_list: exclude,
-                extensions: None,
+                extensions: (c.hmac != 0).then(|| make_credential::ExtensionInputs { hmac_secret: None, hmac_secret_mc: None, prf: Some(prf_in()) }),
                 options: make_credential::Options { rk: c.rk, up: c.up, uv: c.uv },
                 pin_auth: pin,
                 pin_protocol: c.pin_auth.then_some(1),
@@ -183,7 +195,7 @@ pub fn execute(c: &Cfg, matching: bool) -> Result<Outcome, String> {
                 rp_id: RP.into(),
                 client_data_hash: vec![1u8; 32].into(),
                 allow_list: None,
-                extensions: None,
+                extensions: (c.hmac != 0).then(|| get_assertion::ExtensionInputs { hmac_secret: None, prf: Some(prf_in()) }),
                 options: get_assertion::Options { rk: c.rk, up: c.up, uv: c.uv },
                 pin_auth: pin,
                 pin_protocol: c.pin_auth.then_some(1),
@@ -292,6 +304,21 @@ pub fn all_configs() -> Vec<Cfg> {
     let mut outcomes: Vec<Result<(bool, bool), u8>> = vec![Ok((false, false)), Ok((true, false)), Ok((false, true)), Ok((true, true))];
     outcomes.extend([Err(0x27u8), Err(0x2F), Err(0x2D)]);
     let mut v = vec![];
+    // hmac-secret authenticators with a PRF input in the request (extension processing follows consent)
+    for hmac in 1..4u8 {
+        for create in [true, false] {
+            for bits in [0u8, 2, 4, 6] {
+                for ve in [Some(true), Some(false)] {
+                    for o in &outcomes[..5] {
+                        for matching in [false, true] {
+                            let script = UvScript { presence_enabled: true, verification_enabled: ve, outcome: *o, yields: 0 };
+                            v.push(Cfg { create, rk: false, up: bits & 2 != 0, uv: bits & 4 != 0, script, pin_auth: false, matching, exclude_list: false, client_uv_req: None, wire: 0, store_changes_during_prompt: false, warmed_up: false, via_trait: false, long_allow_list: false, hmac });
+                        }
+                    }
+                }
+            }
+        }
+    }
     for create in [true, false] {
         for bits in 0..8u8 {
             for ve in [None, Some(false), Some(true)] {
@@ -305,10 +332,10 @@ pub fn all_configs() -> Vec<Cfg> {
                                 for &wire in wires {
                                     if create {
                                         for exclude_list in [false, true] {
-                                            v.push(Cfg { create, rk: bits & 1 != 0, up: bits & 2 != 0, uv: bits & 4 != 0, script: script.clone(), pin_auth, matching, exclude_list, client_uv_req: None, wire, store_changes_during_prompt: false, warmed_up: false, via_trait: false, long_allow_list: false });
+                                            v.push(Cfg { create, rk: bits & 1 != 0, up: bits & 2 != 0, uv: bits & 4 != 0, script: script.clone(), pin_auth, matching, exclude_list, client_uv_req: None, wire, store_changes_during_prompt: false, warmed_up: false, via_trait: false, long_allow_list: false, hmac: 0 });
                                         }
                                     } else {
-                                        v.push(Cfg { create, rk: bits & 1 != 0, up: bits & 2 != 0, uv: bits & 4 != 0, script: script.clone(), pin_auth, matching, exclude_list: false, client_uv_req: None, wire, store_changes_during_prompt: false, warmed_up: false, via_trait: false, long_allow_list: false });
+                                        v.push(Cfg { create, rk: bits & 1 != 0, up: bits & 2 != 0, uv: bits & 4 != 0, script: script.clone(), pin_auth, matching, exclude_list: false, client_uv_req: None, wire, store_changes_during_prompt: false, warmed_up: false, via_trait: false, long_allow_list: false, hmac: 0 });
                                     }
                                 }
                             }
@@ -326,7 +353,7 @@ pub fn all_configs() -> Vec<Cfg> {
                     for o in &outcomes {
                         for matching in [false, true] {
                             let script = UvScript { presence_enabled: pe, verification_enabled: ve, outcome: *o, yields: 0 };
-                            v.push(Cfg { create, rk: bits & 1 != 0, up: bits & 2 != 0, uv: bits & 4 != 0, script, pin_auth: false, matching, exclude_list: create && matching, client_uv_req: None, wire: 0, store_changes_during_prompt: false, warmed_up: false, via_trait: true, long_allow_list: false });
+                            v.push(Cfg { create, rk: bits & 1 != 0, up: bits & 2 != 0, uv: bits & 4 != 0, script, pin_auth: false, matching, exclude_list: create && matching, client_uv_req: None, wire: 0, store_changes_during_prompt: false, warmed_up: false, via_trait: true, long_allow_list: false, hmac: 0 });
                         }
                     }
                 }
@@ -341,7 +368,7 @@ pub fn all_configs() -> Vec<Cfg> {
                     for pin_auth in [false, true] {
                         for matching in [false, true] {
                             let script = UvScript { presence_enabled: pe, verification_enabled: ve, outcome: *o, yields: 0 };
-                            v.push(Cfg { create: false, rk: bits & 1 != 0, up: bits & 2 != 0, uv: bits & 4 != 0, script, pin_auth, matching, exclude_list: false, client_uv_req: None, wire: 0, store_changes_during_prompt: true, warmed_up: false, via_trait: false, long_allow_list: false });
+                            v.push(Cfg { create: false, rk: bits & 1 != 0, up: bits & 2 != 0, uv: bits & 4 != 0, script, pin_auth, matching, exclude_list: false, client_uv_req: None, wire: 0, store_changes_during_prompt: true, warmed_up: false, via_trait: false, long_allow_list: false, hmac: 0 });
                         }
                     }
                 }
@@ -357,7 +384,7 @@ pub fn all_configs() -> Vec<Cfg> {
                     for o in &outcomes {
                         for matching in [false, true] {
                             let script = UvScript { presence_enabled: pe, verification_enabled: ve, outcome: *o, yields: 0 };
-                            v.push(Cfg { create, rk: bits & 1 != 0, up: bits & 2 != 0, uv: true, script, pin_auth: false, matching, exclude_list: false, client_uv_req: None, wire: 0, store_changes_during_prompt: false, warmed_up: true, via_trait: false, long_allow_list: false });
+                            v.push(Cfg { create, rk: bits & 1 != 0, up: bits & 2 != 0, uv: true, script, pin_auth: false, matching, exclude_list: false, client_uv_req: None, wire: 0, store_changes_during_prompt: false, warmed_up: true, via_trait: false, long_allow_list: false, hmac: 0 });
                         }
                     }
                 }
@@ -373,9 +400,9 @@ pub fn all_configs() -> Vec<Cfg> {
                         for rk in [false, true] {
                             let script = UvScript { presence_enabled: true, verification_enabled: ve, outcome: *o, yields: 0 };
                             if !create && !rk {
-                                v.push(Cfg { create, rk, up: true, uv: req != 2, script: script.clone(), pin_auth: false, matching, exclude_list: false, client_uv_req: Some(req), wire: 0, store_changes_during_prompt: false, warmed_up: false, via_trait: false, long_allow_list: true });
+                                v.push(Cfg { create, rk, up: true, uv: req != 2, script: script.clone(), pin_auth: false, matching, exclude_list: false, client_uv_req: Some(req), wire: 0, store_changes_during_prompt: false, warmed_up: false, via_trait: false, long_allow_list: true, hmac: 0 });
                             }
-                            v.push(Cfg { create, rk, up: true, uv: req != 2, script, pin_auth: false, matching, exclude_list: create && matching, client_uv_req: Some(req), wire: 0, store_changes_during_prompt: false, warmed_up: false, via_trait: false, long_allow_list: false });
+                            v.push(Cfg { create, rk, up: true, uv: req != 2, script, pin_auth: false, matching, exclude_list: create && matching, client_uv_req: Some(req), wire: 0, store_changes_during_prompt: false, warmed_up: false, via_trait: false, long_allow_list: false, hmac: 0 });
                         }
                     }
                 }
